@@ -13,7 +13,7 @@ RULE = ("cases: (planar graph, trace, first-order configuration without width: a
         "distinct = case JSON")
 ASSUMPTIONS = ["planar metric, InMemMap; graphs <= 12 nodes, traces <= 12 points", "probabilities compared with 1e-9 relative slack"]
 TOLERANCES = {"logprob": 1e-9}
-BUDGET = {"quick": {"shards": 8, "examples": 700}, "thorough": {"shards": 16, "examples": 9000}}
+BUDGET = {"quick": {"shards": 8, "examples": 1000}, "thorough": {"shards": 16, "examples": 9000}}
 
 
 def check_case(case, ctx):
